@@ -87,6 +87,36 @@ def encodeInstr : Instr C64 → Sexp
   | .halt => .list [.atom "halt"]
   | .other => .list [.atom "other"]
 
+/-- Every error kind that APPLIES to a gate application (the property says an invalid gate is rejected, not which
+of several applicable errors is reported): variable / placeholder qubit, non-constant parameter, name not in the
+constant / parameterised table, more than one parameter, a FORKED level with an odd parameter count. -/
+def gateErrKinds (g : Gate C64) : List String :=
+  let forks := (g.mods.filter (· == .forked)).length
+  (if g.qubits.any (fun q => q == .variable) then ["variable-qubit"] else []) ++
+  (if g.qubits.any (fun q => q == .placeholder) then ["placeholder"] else []) ++
+  (if g.params.any (fun | .other => true | _ => false) then ["non-constant"] else []) ++
+  (if (constTable (K := C64) g.name).isNone then ["undefined-constant"] else []) ++
+  (if (paramTable (K := C64) g.name).isNone then ["undefined-parameterized"] else []) ++
+  (if g.params.length ≥ 2 then ["arg-length"] else []) ++
+  (if forks > 0 && g.params.length % (2 ^ forks) != 0 then ["forked-odd"] else [])
+
+/-- error kinds that apply to a program: any offender's -/
+def progErrKinds (is : List (Instr C64)) : List String :=
+  (is.flatMap fun | .gate g => (gateErrKinds g).map ("gate-" ++ ·) | _ => []) ++
+  (if is.any (fun | .other => true | _ => false) then ["unsupported"] else [])
+
+/-- model result vs implementation result where, between two errors, any applicable kind is accepted;
+`ok` results are compared exactly as before -/
+def resAgreeKinds (tol : Float) (kinds : List String) : Res → Res → Bool
+  | .err a, .err b => a == b || kinds.contains b
+  | a, b => resAgree tol a b
+
+/-- "an invalid input is rejected": when the model rejects, the implementation rejects with an applicable error -/
+def rejectedOk (kinds : List String) : Res → Res → Bool
+  | .err _, .err b => kinds.contains b
+  | .err _, _ => false
+  | _, _ => true
+
 /-- the specification of `Program::to_unitary` on a body of gates and `HALT`s whose gates are well-formed
 applications to distinct qubits `< n` with real constant parameters: the ordered product of the denotations -/
 def progSpec (is : List (Instr C64)) (n : Nat) : Option M :=
